@@ -261,8 +261,12 @@ class BusModel:
                 elif not cached:
                     self.cover["auto_allocations_uncached"] += 1
                     if not ref_in_io(r.origin, r.size, ios):
-                        viol.append(dict(rule="alloc.uncached_outside_io", msg=f"uncached automatic allocation {r.origin:#x}+{r.size:#x} is not inside any IO "
-                                         f"region {[(hex(o), hex(s)) for o, s in ios]} (handler's own check_region_is_io: {h.check_region_is_io(r)})",
+                        # signature of DESIGN candidate k: inside the power-of-two ROUNDED extent of a non power-of-two IO region
+                        rounded = any(r.origin >= o and r.origin + r.size <= o + pow2_roundup(s) for o, s in ios)
+                        viol.append(dict(rule="alloc.uncached_beyond_io_end" if rounded else "alloc.uncached_outside_io",
+                                         msg=f"uncached automatic allocation {r.origin:#x}+{r.size:#x} is not inside any IO region "
+                                         f"{[(hex(o), hex(s)) for o, s in ios]}" + (" (it lies inside the power-of-two rounded extent of one)" if rounded else "")
+                                         + f"; handler's own check_region_is_io: {h.check_region_is_io(r)}",
                                          detail=dict(region=[r.origin, r.size], io_regions=ios)))
                 elif ref_in_io(r.origin, r.size, ios):
                     self.cover["cached_auto_allocation_inside_io_region(not constrained by the property)"] += 1
